@@ -12,6 +12,7 @@ VERIF = os.path.dirname(os.path.dirname(os.path.abspath(__file__)))
 def main():
     ap = argparse.ArgumentParser()
     ap.add_argument('--only')
+    ap.add_argument('--merge', action='store_true')
     ap.add_argument('--out', default=os.path.join(VERIF, 'selftest', 'seeded_recheck_result.json'))
     a = ap.parse_args()
     res, missed = [], 0
@@ -47,6 +48,11 @@ def main():
         missed += 1 if bad else 0
         print('%s: %s' % (sid, r.get('error') or ('%s %s(%ss, %d runs%s) %s' % (prop, 'CAUGHT' if r['caught'] else 'MISSED exit=%d' % r['exit'], r['wall_s'], r['violating_runs'],
                                                                              ', FRAGILE' if r['caught'] and r['violating_runs'] <= 2 else '', r['signatures'][:2]))), flush=True)
+    if a.merge and os.path.exists(a.out):
+        old = {r['id']: r for r in json.load(open(a.out))}
+        old.update({r['id']: r for r in res})
+        res = [old[k] for k in sorted(old)]
+        missed = sum(1 for r in res if r.get('error') or not r.get('caught'))
     with open(a.out, 'w') as f:
         json.dump(res, f, indent=1)
     print('seeded=%d missed=%d' % (len(res), missed))
